@@ -107,7 +107,7 @@ func c26Mix(x uint64) uint64 {
 // c26Pattern is a fixed pseudo-random megabyte; the padding of a message for
 // id is a window of it chosen by id, so building and checking padding are
 // single copy/compare operations (cheap under the race detector).
-const c26MaxPad = 400 << 10
+const c26MaxPad = 300 << 10
 
 var c26Pattern = func() []byte {
 	b := make([]byte, 1<<20+c26MaxPad)
@@ -375,6 +375,7 @@ type c26Cfg struct {
 	LinkFaults  bool   `json:"link_faults"`
 	Chaos       int    `json:"chaos_actions"`
 	Marathon    bool   `json:"marathon,omitempty"`
+	LagHeavy    bool   `json:"lag_heavy,omitempty"`
 	DialFailPct int    `json:"dial_fail_pct"`
 }
 
@@ -615,13 +616,15 @@ func (cs *c26Case) handle(ctx context.Context, p []byte) ([]byte, error) {
 }
 
 func c26PadLen(rng *rand.Rand) int {
-	switch x := rng.IntN(100); {
-	case x < 84:
+	// large bodies are rare: every body above 64 KiB costs a 1 MiB slab in the
+	// transport, which dominates CPU under the race detector
+	switch x := rng.IntN(1000); {
+	case x < 870:
 		return rng.IntN(64)
-	case x < 95:
-		return rng.IntN(4096)
-	case x < 99:
-		return rng.IntN(64 << 10)
+	case x < 975:
+		return rng.IntN(4000)
+	case x < 997:
+		return rng.IntN(60 << 10)
 	default:
 		return rng.IntN(c26MaxPad)
 	}
@@ -648,7 +651,11 @@ func (cs *c26Case) pickPlan(idx int, rng *rand.Rand) (beh, pol int) {
 		}
 		return c26bEcho, c26pLong
 	}
-	switch x := rng.IntN(100); {
+	x := rng.IntN(100)
+	if cs.cfg.LagHeavy && rng.IntN(100) < 40 {
+		x = 90 // lag
+	}
+	switch {
 	case x < 30:
 		beh = c26bEcho
 	case x < 50:
@@ -675,9 +682,9 @@ func (cs *c26Case) pickPlan(idx int, rng *rand.Rand) (beh, pol int) {
 		return
 	}
 	switch x := rng.IntN(100); {
-	case x < 45:
+	case x < 50:
 		pol = c26pLong
-	case x < 60:
+	case x < 66:
 		pol = c26pBackground
 	case x < 78:
 		pol = c26pShort
@@ -705,13 +712,17 @@ func (cs *c26Case) oneCall(idx int, rng *rand.Rand) {
 		if rng.IntN(10) == 0 {
 			q.delay = time.Duration(rng.IntN(1500)) * 10 * time.Microsecond
 		}
-		switch rng.IntN(3) {
+		lagKind := rng.IntN(3)
+		if cs.cfg.LagHeavy {
+			lagKind = 2 + rng.IntN(6)
+		}
+		switch lagKind {
 		case 0:
 			q.lag = uint32(1 + rng.IntN(40))
 		case 1:
 			q.lag = uint32(40 + rng.IntN(400))
 		default:
-			q.lag = uint32(100 + rng.IntN(1+cs.cfg.Total))
+			q.lag = uint32(1 + rng.IntN(1+cs.cfg.Total))
 		}
 	} else {
 		q.lag = uint32(65_536 - 72 + rng.IntN(112))
@@ -991,6 +1002,17 @@ func c26GenCfg(rng *rand.Rand, marathon bool) c26Cfg {
 		cfg.Chaos += 3
 	}
 	cfg.Total = 400 + rng.IntN(1400)
+	if rng.IntN(4) == 0 {
+		// many answers that arrive long after their caller gave up, spread
+		// over every request-id distance up to the case length, on one
+		// long-lived connection with a wide window of calls in flight
+		cfg.LagHeavy = true
+		cfg.Pool, cfg.Concurrency, cfg.QueueSize, cfg.SvcTimeout = 1, 256, 1024, "0s"
+		cfg.Callers = 32 + rng.IntN(33)
+		cfg.DialFailPct, cfg.Chaos = 0, rng.IntN(3)
+		cfg.QueueItems = 4096
+		cfg.Total = 1200 + rng.IntN(800)
+	}
 	return cfg
 }
 
@@ -1009,6 +1031,9 @@ func c26RunCase(r *verifkit.Run, ci int, cfg c26Cfg) (ok, nontrivial bool) {
 		obs: &c26Obs{last: map[uint64]transport.Event{}, events: map[string]int{}}}
 	cs.wmin.Store(1 << 62)
 	cs.parkCap = int64(cfg.Concurrency / 2)
+	if cfg.LagHeavy {
+		cs.parkCap = int64(cfg.Concurrency - 48)
+	}
 	if cs.parkCap < 1 {
 		cs.parkCap = 1
 	}
@@ -1100,6 +1125,11 @@ func c26RunCase(r *verifkit.Run, ci int, cfg c26Cfg) (ok, nontrivial bool) {
 	client.Stop() // flushes the observer drain
 	if !actorsGone {
 		r.Inconclusive(fmt.Sprintf("case %d: %d connection actor goroutines still alive 90 s after ClosePeer+Stop", ci, c26ConnActors()))
+	} else if ok && cs.connSeq.Load() > 1500 {
+		// the client's observer drain coalesces per-connection state for at most
+		// 8192 keys (several per connection); beyond that events may be dropped
+		// and the last gauge seen could be stale. Never reached by this workload.
+		r.Count("pending.final_check_skipped_too_many_conns", 1)
 	} else if ok {
 		nconn, sum, nz := cs.obs.pending()
 		r.Count("pending.connections_observed", nconn)
@@ -1154,7 +1184,7 @@ func c26RunCase(r *verifkit.Run, ci int, cfg c26Cfg) (ok, nontrivial bool) {
 func TestVerifC26RPC(t *testing.T) {
 	r := verifkit.Start(t, "C26", "rpc")
 	defer r.Finish()
-	r.SetRule("one case = fresh transport.Server on loopback TCP + transport.Client (pool 1..4) over fault conns; 2..64 callers issue 400..1800 Calls whose payload carries a run-unique id and the handler behaviour (echo f(id) now/after delay, id-carrying error, answer only after the caller gave up, answer after N further calls completed, never); callers use long/none/short deadlines, pre-cancelled ctx, timer cancel, cancel-when-handler-started; chaos at PRNG progress points: RST, half-close read/write, mid-frame stall (then continue or reset) in either direction, ClosePeer (also concurrent); per-op PRNG delays/fragmentation/resets inside the conn; config (service concurrency/queue/timeout, batch limits, queue limits, dial failures/cooldown) from the case PRNG. Thorough tier: three marathon cases (72k calls on one connection) separate a given-up call from its late answer by >65k request ids. Non-trivial case = >=1 call gave up by timeout/cancel AND >=1 link loss (reset/half-close) happened while >=8 calls were in flight AND >=1 call succeeded; distinct by abstract shape (sizes, fault/outcome buckets).")
+	r.SetRule("one case = fresh transport.Server on loopback TCP + transport.Client (pool 1..4) over fault conns; 2..64 callers issue 400..1800 Calls whose payload carries a run-unique id and the handler behaviour (echo f(id) now/after delay, id-carrying error, answer only after the caller gave up, answer after N further calls completed, never); callers use long/none/short deadlines, pre-cancelled ctx, timer cancel, cancel-when-handler-started; chaos at PRNG progress points: RST, half-close read/write, mid-frame stall (then continue or reset) in either direction, ClosePeer (also concurrent); per-op PRNG delays/fragmentation/resets inside the conn; config (service concurrency/queue/timeout, batch limits, queue limits, dial failures/cooldown) from the case PRNG. Thorough tier: two marathon cases (72k calls on one connection) separate a given-up call from its late answer by >65k request ids. Non-trivial case = >=1 call gave up by timeout/cancel AND >=1 link loss (reset/half-close) happened while >=8 calls were in flight AND >=1 call succeeded; distinct by abstract shape (sizes, fault/outcome buckets).")
 	r.Assume("loopback TCP delivers bytes unmodified; the fault conn only delays, fragments, truncates-then-resets, never alters bytes")
 	r.Assume("a success payload equal to f(id) can only originate from the handler invocation for id (f is injective, 128-bit tagged)")
 
@@ -1163,8 +1193,8 @@ func TestVerifC26RPC(t *testing.T) {
 	if runtime.GOMAXPROCS(0) > 8 {
 		defer runtime.GOMAXPROCS(runtime.GOMAXPROCS(8))
 	}
-	nCases := r.N(30, 240)
-	marathonEvery := 80 // thorough tier only: three marathon cases
+	nCases := r.N(30, 200)
+	marathonEvery := 80 // thorough tier only: marathon cases 40, 120, 200...
 	nontrivialFloor := nCases / 3
 	ran, nNontrivial, aborted := 0, 0, false
 	for ci := 0; ci < nCases; ci++ {
